@@ -108,6 +108,7 @@ func c19History(k *fw.K) {
 	matched, total, invalid := 0, 0, 0
 	last, lastSet, rejectedJustNow := 0., false, false
 	zeroAfterMatch, sawMatch := false, false
+	var played []batch // every accepted batch in the order it was fed
 	result := func(tag string) bool {
 		var v float64
 		var err error
@@ -187,8 +188,8 @@ func c19History(k *fw.K) {
 			rejectedJustNow = false
 		}
 		var err error
+		var tp, tt tensor.Tensor
 		if pn := call(func() {
-			var tp, tt tensor.Tensor
 			if r.Intn(3) == 0 {
 				var how string
 				tp, how = c19Derived(k, b.P)
@@ -214,21 +215,60 @@ func c19History(k *fw.K) {
 			k.Failf("Accumulate(batch %d of size %d): panic=%v err=%v", bi, len(b.P), pn, err)
 			return
 		}
-		m := 0
-		for i := range b.P {
-			if b.P[i] == b.T[i] {
-				m++
+		account := func(b batch, tag string) bool {
+			m := 0
+			for i := range b.P {
+				if b.P[i] == b.T[i] {
+					m++
+				}
 			}
+			if m == 0 && sawMatch {
+				zeroAfterMatch = true
+			}
+			sawMatch = sawMatch || m > 0
+			matched += m
+			total += len(b.P)
+			played = append(played, b)
+			k.Count("accepted_batches", 1)
+			return result(tag)
 		}
-		if m == 0 && sawMatch {
-			zeroAfterMatch = true
-		}
-		sawMatch = sawMatch || m > 0
-		matched += m
-		total += len(b.P)
-		k.Count("accepted_batches", 1)
-		if !result("after batch " + itoa(bi)) {
+		if !account(b, "after batch "+itoa(bi)) {
 			return
+		}
+		// the next accepted call shares exactly ONE tensor object with this one: the same target object scored against a
+		// different prediction tensor, or the same prediction object against a different target tensor
+		if r.Intn(4) == 0 && !long {
+			other := make([]float64, len(b.P))
+			for i := range other {
+				src := b.P
+				if r.Intn(2) == 0 {
+					src = b.T
+				}
+				other[i] = src[r.Intn(len(src))]
+				if class == 1 && r.Intn(2) == 0 {
+					other[i] += 1e-3 + r.Float64()
+				}
+			}
+			nb2 := batch{P: other, T: b.T}
+			reuseTarget := r.Intn(2) == 0
+			if !reuseTarget {
+				nb2 = batch{P: b.P, T: other}
+			}
+			fresh := rt.MustLeaf(ref.New([]int{len(other)}, other), false)
+			if pn := call(func() {
+				if reuseTarget {
+					err = acc.Accumulate(fresh, tt)
+				} else {
+					err = acc.Accumulate(tp, fresh)
+				}
+			}); pn != nil || err != nil {
+				k.Failf("Accumulate sharing one tensor object with the previous call (batch %d): panic=%v err=%v", bi, pn, err)
+				return
+			}
+			k.Count("calls_sharing_one_object_with_the_previous_call", 1)
+			if !account(nb2, "after the call that shares one tensor object with batch "+itoa(bi)) {
+				return
+			}
 		}
 	}
 	final, _ := acc.Result()
@@ -240,7 +280,7 @@ func c19History(k *fw.K) {
 	}
 	// re-partitions of the same data
 	var allP, allT []float64
-	for _, b := range batches {
+	for _, b := range played {
 		allP, allT = append(allP, b.P...), append(allT, b.T...)
 	}
 	for rep := 0; rep < 3+r.Intn(4); rep++ {
